@@ -49,6 +49,7 @@ import (
 	"context"
 	"encoding/json"
 	"fmt"
+	"io"
 	"io/fs"
 	"reflect"
 	"sort"
@@ -92,6 +93,13 @@ type Step struct {
 	// for a page whose front-matter names a layout), "base+local". A step that does not name
 	// an overlay finds its files deleted again.
 	Extra string `json:"extra,omitempty"`
+	// Fail: the after-failure dimension. Before every render of this step a FAILING call is made
+	// through the same entry on the same engine / Template object: "ctx" (already cancelled
+	// context), "deadline" (expired deadline), "writer" (destination writer that fails at once),
+	// "stale" (inline entries: the program's own body with a failure injected late, rendered
+	// with the same names bound to recognisably stale values). The failing call itself is not
+	// judged; the render that follows must meet the usual expectation.
+	Fail string `json:"fail,omitempty"`
 }
 
 // Case is a history. Mode "history" (default), "probe" (Steps[0] rendered K times on one
@@ -213,6 +221,7 @@ type seat struct {
 	// each was filled with
 	keep     map[int]vuego.Template
 	keepData map[int]map[string]any
+	loaded   map[int]vuego.Template
 
 	fs      *memfs.FS
 	base    cat.Program
@@ -275,25 +284,58 @@ func (s *seat) call(entry string, dm map[string]any) (result, error) {
 
 // callVar: v names the data variant dm was built for (needed by the keep-* entries only).
 func (s *seat) callVar(entry string, dm map[string]any, v int) (result, error) {
+	return s.callOpt(entry, dm, v, callOpts{})
+}
+
+// callOpts vary a call for the after-failure dimension: another context, a destination writer
+// that fails, another inline body.
+type callOpts struct {
+	ctx  context.Context
+	sink io.Writer // when set, the call writes here instead of into the result
+	body string    // when set, the inline entries render this body
+}
+
+func (s *seat) callOpt(entry string, dm map[string]any, v int, o callOpts) (result, error) {
 	var d any = dm
 	if dm == nil {
 		d = nil // "no data": an untyped nil, not a nil map
 	}
-	var buf bytes.Buffer
-	ctx := context.Background()
+	var out bytes.Buffer
+	var buf io.Writer = &out
+	if o.sink != nil {
+		buf = o.sink
+	}
+	ctx := o.ctx
+	if ctx == nil {
+		ctx = context.Background()
+	}
 	body := s.p.Files["page.vuego"]
+	if o.body != "" {
+		body = o.body
+	}
 	var err error
 	switch entry {
 	case "load":
-		err = s.eng.root.Load(s.page).Fill(d).Render(ctx, &buf)
+		err = s.eng.root.Load(s.page).Fill(d).Render(ctx, buf)
 	case "file":
-		err = s.eng.root.New().Fill(d).RenderFile(ctx, &buf, s.page)
+		err = s.eng.root.New().Fill(d).RenderFile(ctx, buf, s.page)
 	case "string":
-		err = s.eng.root.New().Fill(d).RenderString(ctx, &buf, body)
+		err = s.eng.root.New().Fill(d).RenderString(ctx, buf, body)
 	case "byte":
-		err = s.eng.root.New().Fill(d).RenderByte(ctx, &buf, []byte(body))
+		err = s.eng.root.New().Fill(d).RenderByte(ctx, buf, []byte(body))
 	case "reader":
-		err = s.eng.root.New().Fill(d).RenderReader(ctx, &buf, strings.NewReader(body))
+		err = s.eng.root.New().Fill(d).RenderReader(ctx, buf, strings.NewReader(body))
+	case eKeepLoaded:
+		// a kept LOADED template: tpl := root.Load(page).Fill(data) once, tpl.Render every time
+		if s.loaded == nil {
+			s.loaded = map[int]vuego.Template{}
+		}
+		tpl, ok := s.loaded[v]
+		if !ok {
+			tpl = s.eng.root.Load(s.page).Fill(d)
+			s.loaded[v] = tpl
+		}
+		err = tpl.Render(ctx, buf)
 	case eKeepString, eKeepReader, eKeepNew, eKeepLoad:
 		keep, kerr := s.kept(v, dm)
 		if kerr != nil {
@@ -301,13 +343,13 @@ func (s *seat) callVar(entry string, dm map[string]any, v int) (result, error) {
 		}
 		switch entry {
 		case eKeepString:
-			err = keep.RenderString(ctx, &buf, body)
+			err = keep.RenderString(ctx, buf, body)
 		case eKeepReader:
-			err = keep.RenderReader(ctx, &buf, strings.NewReader(body))
+			err = keep.RenderReader(ctx, buf, strings.NewReader(body))
 		case eKeepNew:
-			err = keep.New().RenderString(ctx, &buf, body)
+			err = keep.New().RenderString(ctx, buf, body)
 		case eKeepLoad:
-			err = keep.Load(s.page).Render(ctx, &buf)
+			err = keep.Load(s.page).Render(ctx, buf)
 		}
 	case eAssign:
 		t := s.eng.root.Load(s.page)
@@ -319,24 +361,24 @@ func (s *seat) callVar(entry string, dm map[string]any, v int) (result, error) {
 		for _, k := range keys {
 			t = t.Assign(k, dm[k])
 		}
-		err = t.Render(ctx, &buf)
+		err = t.Render(ctx, buf)
 	case "vue":
-		err = s.eng.vue.Render(&buf, s.page, d)
+		err = s.eng.vue.Render(buf, s.page, d)
 	case "frag":
-		err = s.eng.vue.RenderFragment(&buf, s.page, d)
+		err = s.eng.vue.RenderFragment(buf, s.page, d)
 	case eNodes:
 		if s.nodes == nil {
 			s.nodes = parseBody(body)
 		}
 		before := serialise(s.nodes)
-		err = s.eng.vue.RenderNodes(&buf, s.nodes, d)
+		err = s.eng.vue.RenderNodes(buf, s.nodes, d)
 		if after := serialise(s.nodes); after != before {
 			return result{}, fmt.Errorf("RenderNodes modified the nodes the caller passed in (the loaded template): before %q after %q", clip(before), clip(after))
 		}
 	default:
 		return result{}, fmt.Errorf("unknown entry %q", entry)
 	}
-	r := result{out: buf.Bytes(), failed: err != nil}
+	r := result{out: out.Bytes(), failed: err != nil}
 	if err != nil {
 		r.errTxt = err.Error()
 	}
@@ -868,6 +910,12 @@ func check(c Case) error {
 			if i > 0 {
 				where += fmt.Sprintf(", after %s/%s", c.Steps[i-1].Prog, c.Steps[i-1].Entry)
 			}
+			if st.Fail != "" {
+				if err := failingCall(w.seats[st.Prog], pl.p, st); err != nil {
+					return fmt.Errorf("%s: %w", where, err)
+				}
+				where += " [after a failed call: " + st.Fail + "]"
+			}
 			got, err := w.seats[st.Prog].callVar(st.Entry, d, st.Var)
 			if err != nil {
 				return fmt.Errorf("%s: %w", where, err)
@@ -1016,6 +1064,12 @@ func classify(c Case) (bool, []string) {
 			set["k>=20"] = true
 		}
 		editClasses(c, i, set)
+		if st.Fail != "" {
+			set["after-failure:"+st.Fail] = true
+			if isKeep(st.Entry) {
+				set["after-failure-on-kept-template"] = true
+			}
+		}
 		if st.Var != 0 {
 			set["data-variant"] = true
 		}
@@ -1134,6 +1188,18 @@ func genStep(t *rapid.T, p cat.Program) Step {
 		st.Var = rapid.SampledFrom([]int{0, 0, 0, 1, 2, 1, 2, vEmpty, vNil, vJSON, vStringly, vSwapped, vJSON, vStringly}).Draw(t, "var")
 	} else if rapid.IntRange(0, 3).Draw(t, "nil-data") == 0 {
 		st.Var = vNil
+	}
+	if rapid.IntRange(0, 3).Draw(t, "after-failure") == 0 {
+		var kinds []string
+		for _, f := range failKinds {
+			if failApplies(st.Entry, f) {
+				kinds = append(kinds, f)
+			}
+		}
+		st.Fail = rapid.SampledFrom(kinds).Draw(t, "fail")
+		if st.K > 3 {
+			st.K = 3
+		}
 	}
 	return st
 }
@@ -1378,6 +1444,19 @@ func TestProp(t *testing.T) {
 			}
 		} else {
 			each("kept", Case{Steps: []Step{st(eKeepLoad, 0, 2), st("load", 0, 1), st(eKeepLoad, 0, 1)}})
+		}
+	}
+	// after-failure: before the render, a failing call through the same entry on the same engine /
+	// Template object - cancelled context, expired deadline, failing writer, the program's own
+	// body failing late with stale values
+	for _, p := range named {
+		for _, e := range entriesOf(p) {
+			st := func(fail string, k int) Step { return Step{Prog: p.Name, Entry: e, Fail: fail, K: k} }
+			steps := []Step{st("", 1), st("ctx", 2), st("writer", 1), st("deadline", 1)}
+			if failApplies(e, "stale") {
+				steps = append(steps, st("stale", 2))
+			}
+			each("after-failure", Case{Steps: append(steps, st("", 1))})
 		}
 	}
 	// file edits between renders on one engine: forward, then twice BACKWARDS in mtime (the
